@@ -92,7 +92,7 @@ func c17Gen(g *Gen) {
 		kind = 9 // development only: compare with the model of the original NewSink (lk = false)
 	}
 	emit := func(cls string, nthr, maxn int, ops []c17Op) {
-		if c17GiveUp() {
+		if g.aborted || c17GiveUp() {
 			g.Count("_not-run-after-hangs")
 			return
 		}
@@ -185,6 +185,10 @@ func c17Gen(g *Gen) {
 
 	// F: end to end through the real Reloader (config files, real pipelines, fake upstream)
 	e2e := func(mode, per int, kinds ...int) {
+		if g.aborted || c17GiveUp() {
+			g.Count("_not-run-after-hangs")
+			return
+		}
 		g.Count("F:end-to-end")
 		z := []int64{int64(mode), int64(per)}
 		for _, k := range kinds {
@@ -193,7 +197,11 @@ func c17Gen(g *Gen) {
 		g.Case(2, nil, z)
 	}
 	e2e(0, 60, 2, 1, 0, 4, 3, 0)
+	e2e(2, 20, 0) // backlog: upstream unreachable, client gone, corrected configuration reloaded, no further traffic
 	if g.Thorough() {
+		e2e(2, 300, 0)
+		e2e(2, 40, 1, 0)
+		e2e(2, 40, 0, 0)
 		e2e(0, 400, 0)
 		e2e(0, 400, 1)
 		e2e(0, 400, 2)
@@ -214,7 +222,7 @@ func c17Gen(g *Gen) {
 
 	// G: the real TCP listener in front of the real orchestrator: descriptor number reused before the old
 	// connection's sink is closed (observed trace = input of the case), and a single connection for comparison
-	for i := 0; i < g.Pick(2, 10); i++ {
+	for i := 0; i < g.Pick(2, 10) && !g.aborted && !c17GiveUp(); i++ {
 		if z := c17ListenerDemo(true); z != nil {
 			g.Count("G:listener-two-connections")
 			g.Case(1, nil, z)
@@ -222,7 +230,9 @@ func c17Gen(g *Gen) {
 			g.Count("G:listener-run-incomplete")
 		}
 	}
-	if z := c17ListenerDemo(false); z != nil {
+	if g.aborted || c17GiveUp() {
+		g.Count("_not-run-after-hangs")
+	} else if z := c17ListenerDemo(false); z != nil {
 		g.Count("G:listener-one-connection")
 		g.Case(1, nil, z)
 	}
